@@ -155,8 +155,15 @@ def events(t, rnd):
             b[pos] = v
             triples.append(tuple(b))
     triples += [(rnd.randrange(256), rnd.randrange(256), rnd.randrange(256)) for _ in range(1500 if t == "quick" else 30000)]
+    def zpad(x, j):
+        """a CSS number may carry leading zeros (0255, 007, +0012) - and a sign"""
+        if j % 11 == 3:
+            return str(x).zfill(rnd.choice([4, 5, 8]))
+        if j % 11 == 7:
+            return "+" + str(x).zfill(rnd.choice([3, 4]))
+        return str(x)
     for c in triples:
-        txt = fn_variant("rgb", [str(x) for x in c], n)
+        txt = fn_variant("rgb", [zpad(x, n + q) for q, x in enumerate(c)], n)
         evs.append({"k": "rgbint", "v": list(c), "obs": both(txt, n), "txt": txt})
         n += 1
         if n % 5 == 0:
@@ -167,7 +174,7 @@ def events(t, rnd):
         for p in range(0, 1001):
             q = [rnd.randrange(1001) for _ in range(3)]
             q[pos] = p
-            txt = fn_variant("rgb", [tenths(x) + "%" for x in q], n)
+            txt = fn_variant("rgb", [("000" if (n + j_) % 13 == 5 else "") + tenths(x) + "%" for j_, x in enumerate(q)], n)
             evs.append({"k": "rgbpct", "p": q, "obs": both(txt, n), "txt": txt})
             n += 1
     # ---- rgb() percentages with five decimals a hair off every rounding tie (k + 0.5)/255: 2 and 1 hundred-thousandths of a
@@ -195,6 +202,13 @@ def events(t, rnd):
         s10 = rnd.choice([0, 1000, 500, rnd.randrange(1001), rnd.randrange(1001)])
         l10 = rnd.choice([0, 1000, 500, rnd.randrange(1001), rnd.randrange(1001)])
         hh = str(h) if n % 7 else (f"+{h}" if h >= 0 else str(h))
+        if n % 23 == 9:
+            # the same hue written a huge whole number of turns away (exact integers here; a float reduction loses the last digits
+            # from about 1e13 on - CSS numbers are not limited to what a double holds exactly, but integers below 2^53 are)
+            turns = rnd.choice([10 ** 12, 10 ** 13, 27 * 10 ** 12, (2 ** 53 - 1) // 360 - 7])
+            big = h + 360 * turns * rnd.choice([1, -1])
+            if abs(big) < 2 ** 53:
+                hh = str(big)
         # CSS numbers may carry a sign: +50%, +100%, -0% are the percentages 50, 100 and 0
         ss = ("+" if n % 9 == 4 else "-" if (s10 == 0 and n % 2) else "") + tenths(s10) + "%"
         ls = ("+" if n % 13 == 6 else "-" if (l10 == 0 and n % 2) else "") + tenths(l10) + "%"
